@@ -11,6 +11,8 @@ SUBST_SPEC = '''// ===== substitution (C04) =====
 // what Function::substitute returns (its verified postcondition): the function itself for an empty map, otherwise the expression of spec/substitute_spec.rs
 pub open spec fn subst_post(f: v1::Function, rep: Map<u64, v1::Function>, r: v1::Function) -> bool {
     &&& rep.len() == 0 ==> r == f
+    // the term list is one the (verified) term iterators yield for f: its terms sum to f (lemma_fn_terms)
+    &&& rep.len() != 0 ==> fn_titems_ok(fn_terms(f), f)
     &&& rep.len() != 0 ==> exists|fss: Seq<Seq<v1::Function>>| #![trigger sub_acc(fn_terms(f), fss, fn_terms(f).len() as int)]
             all_factors_ok(fn_terms(f), fss, rep, fn_terms(f).len() as int) && r == sub_acc(fn_terms(f), fss, fn_terms(f).len() as int) && acc_steps_ok(fn_terms(f), fss, fn_terms(f).len() as int)
 }
@@ -98,13 +100,18 @@ pub fn substitute(&mut self, replacement: HashMap<u64, Function>) -> (r: Result<
 
 
 FN_SUBST_STUBS = '''// ---- assumed callee contracts of Function::substitute (T5) ----
-// term iterator of &Function (Box<dyn Iterator>: outside the dialect): the enumerated (ids, coefficient) list is a function of the message, its terms sum to the polynomial
-#[verifier::external_body] pub fn function_terms(f: &Function) -> (r: Vec<(SortedIds, F64)>)
+// purity naming (ASSUMED): the list the term iterator yields for a message is a function of the message.  Everything else about that list is proved (function_terms below)
+#[verifier::external_body]
+pub fn name_terms(v: Vec<(SortedIds, F64)>, f: &Function) -> (r: Vec<(SortedIds, F64)>)
+    ensures r == v, r@ == fn_terms(*f)
+{ v }
+// glue (verified): `for (ids, coefficient) in self` is the real IntoIterator for &Function (a verified unit of this file), then the purity naming
+pub fn function_terms(f: &Function) -> (r: Vec<(SortedIds, F64)>)
     requires fn_coo_ok(*f)      // IntoIterator for &Quadratic asserts equal COO lengths
-    ensures r@ == fn_terms(*f)     // value and finiteness of the list: axioms ax_fn_terms / ax_fn_terms_fin in spec/substitute_spec.rs
-{ unimplemented!() }
+    ensures r@ == fn_terms(*f), fn_titems_ok(fn_terms(*f), *f)
+{ let v = f.into_iter(); let r = name_terms(v, f); r }
 // SortedIds derefs to [u64]: `.iter()` enumerates the ids in order
-#[verifier::external_body] pub fn sorted_ids_to_vec(s: &SortedIds) -> (r: Vec<u64>) ensures r@ == s@ { unimplemented!() }
+pub fn sorted_ids_to_vec(s: &SortedIds) -> (r: Vec<u64>) ensures r@ == s@ { s.0.clone() }
 impl Function {
     // Zero::zero for Function / From<f64> for Function (v1_ext/function.rs; bodies verified in C02)
     #[verifier::external_body] pub fn zero() -> (r: Function) ensures r == zero_fn() { unimplemented!() }
@@ -140,7 +147,7 @@ pub fn substitute(&self, replacements: &HashMap<u64, Self>) -> (r: Result<Self, 
                 loops=[dict(kind='for', it='it_1', rebind='(__e.0.vclone(), __e.1)',
                             body_proof=' proof { assert(*__e == __h1[it_1.index@ as int]); fs = Seq::empty(); }',
                             inv='''invariant
-                __h1@ == fn_terms(*self), out.function is Some, fn_coo_ok(out),
+                __h1@ == fn_terms(*self), fn_titems_ok(fn_terms(*self), *self), out.function is Some, fn_coo_ok(out),
                 fss.len() == it_1.index@, all_factors_ok(__h1@, fss, replacements@, it_1.index@ as int),
                 out == sub_acc(__h1@, fss, it_1.index@ as int), acc_steps_ok(__h1@, fss, it_1.index@ as int),'''),
                        dict(kind='for', it='it_2', rebind='__e',
